@@ -3,8 +3,8 @@
 //! replica that read it (`renoir::verif::replica_coord()` inside a `map` fused into the source block).
 //!
 //! header: `file <n> <mode>` (mode `F` = `stream_file`, mode `I` = `stream_iter` over the bytes as items);
-//! ops: `bytes <b,b,…>` (decimal byte values; the content is the concatenation of all op lines, so every
-//! subset of the op lines is a valid case);
+//! ops: `bytes <b,b,…>` | `rep <count> <b,b,…>` (decimal byte values; the content is the concatenation of all
+//! op lines, `rep` repeats its pattern `count` times; every subset of the op lines is a valid case);
 //! output: one line per replica `0..n`: `<replica> [[b,…],[b,…],…]` (mode F: the lines it emitted, in
 //! order, as byte lists) / `<replica> [b,…]` (mode I: the items it emitted).
 use nvh::*;
@@ -33,11 +33,26 @@ fn gen(rng: &mut Rng, i: usize) -> Case {
         }
         return c;
     }
+    if rng.chance(1, 40) {
+        return gen_large(rng);
+    }
     let n = match rng.below(10) {
         0 => 1,
         _ => rng.range(2, 9),
     };
-    let mode = if rng.chance(1, 12) { "I" } else { "F" };
+    if rng.chance(1, 4) {
+        // the REAL non-parallel source: `stream_iter` (IteratorSource) over 0..300 items, n = 1..9 workers
+        let mut c = Case::new(&["file", &n.to_string(), "I"]);
+        let len = match rng.below(4) {
+            0 => rng.range(0, 3),
+            1 => rng.range(0, 30),
+            _ => rng.range(0, 300),
+        } as usize;
+        let items: Vec<u8> = (0..len).map(|_| rng.below(256) as u8).collect();
+        push_ops(&mut c, &items, rng);
+        return c;
+    }
+    let mode = "F";
     let mut c = Case::new(&["file", &n.to_string(), mode]);
     let mut bytes: Vec<u8> = vec![];
     let letters = [b'a', b'b', b'c'];
@@ -91,27 +106,82 @@ fn gen(rng: &mut Rng, i: usize) -> Case {
             }
         }
     }
-    // op lines: small chunks so that shrinking can remove pieces
+    push_ops(&mut c, &bytes, rng);
+    c
+}
+
+/// run-length encode the content into op lines (small chunks so that shrinking can remove pieces)
+fn push_ops(c: &mut Case, bytes: &[u8], rng: &mut Rng) {
     let mut i = 0;
     while i < bytes.len() {
-        let k = (rng.range(1, 4) as usize).min(bytes.len() - i);
-        let words: Vec<String> = bytes[i..i + k].iter().map(|b| b.to_string()).collect();
-        c.ops(vec!["bytes".into(), words.join(",")]);
-        i += k;
+        let mut j = i;
+        while j < bytes.len() && bytes[j] == bytes[i] {
+            j += 1;
+        }
+        if j - i >= 8 {
+            c.ops(vec!["rep".into(), (j - i).to_string(), bytes[i].to_string()]);
+            i = j;
+        } else {
+            let k = (rng.range(1, 4) as usize).min(bytes.len() - i);
+            let words: Vec<String> = bytes[i..i + k].iter().map(|b| b.to_string()).collect();
+            c.ops(vec!["bytes".into(), words.join(",")]);
+            i += k;
+        }
     }
+}
+
+/// > 8 KiB: range boundaries at multiples of the BufReader capacity (8192); a line end is placed at
+/// `boundary + {-2,-1,0,1}` (LF or CRLF) or a long line spans the boundary.
+fn gen_large(rng: &mut Rng) -> Case {
+    let n = rng.range(2, 4) as usize;
+    let mut c = Case::new(&["file", &n.to_string(), "F"]);
+    let size = 8192 * n + rng.range(0, n as i64 - 1) as usize;
+    let mut b = vec![b'a'; size];
+    let mut p = rng.range(0, 400) as usize;
+    while p < size {
+        b[p] = b'\n';
+        p += rng.range(1, 400) as usize;
+    }
+    for i in 1..n {
+        let bd = 8192 * i;
+        if rng.chance(1, 3) {
+            for x in b.iter_mut().take((bd + 3000).min(size)).skip(bd - 3000) {
+                *x = b'a';
+            }
+        } else {
+            let at = (bd as i64 + rng.range(-2, 1)) as usize;
+            for x in b.iter_mut().take((at + 3).min(size)).skip(at - 3) {
+                *x = b'a';
+            }
+            b[at] = b'\n';
+            if rng.chance(1, 3) {
+                b[at - 1] = b'\r';
+            }
+        }
+    }
+    if rng.chance(1, 2) {
+        b[size - 1] = b'\n';
+    }
+    push_ops(&mut c, &b, rng);
     c
 }
 
 fn content(c: &Case) -> Vec<u8> {
+    let parse = |s: &str| -> Vec<u8> {
+        s.split(',').filter(|w| !w.is_empty()).map(|w| w.parse::<u8>().expect("bad byte")).collect()
+    };
     let mut bytes = vec![];
     for op in &c.ops {
-        if op[0] != "bytes" || op.len() < 2 {
-            continue;
-        }
-        for w in op[1].split(',') {
-            if !w.is_empty() {
-                bytes.push(w.parse::<u8>().expect("bad byte"));
+        match (op[0].as_str(), op.len()) {
+            ("bytes", 2) => bytes.extend(parse(&op[1])),
+            ("rep", 3) => {
+                let k: usize = op[1].parse().expect("bad count");
+                let pat = parse(&op[2]);
+                for _ in 0..k {
+                    bytes.extend(&pat);
+                }
             }
+            _ => {}
         }
     }
     bytes
